@@ -267,7 +267,31 @@ func (w *crashWorld) sshClient(gw, auth string, items []string) string {
 				_, _, _ = cc.SendRequest(typ, false, pay)
 			}
 		case f[0] == "c" && len(f) == 3:
-			ch, rq, err := cc.OpenChannel(unhx(f[1]), []byte(unhx(f[2])))
+			// x/crypto/ssh: an OpenChannel that starts after the mux loop has ended (the gateway hung up first — its
+			// patience is 3 s, a loaded machine gets there) registers a channel nobody will ever close and waits on it
+			// for ever; the socket deadline does not reach it. The wait is ours to bound (seen as `hang` of the child,
+			// goroutine dump: mux.openChannel, chan receive — a client-library race, not frps).
+			type ocRes struct {
+				ch  ssh.Channel
+				rq  <-chan *ssh.Request
+				err error
+			}
+			ocCh := make(chan ocRes, 1)
+			go func(typ string, pay []byte) {
+				ch, rq, err := cc.OpenChannel(typ, pay)
+				ocCh <- ocRes{ch, rq, err}
+			}(unhx(f[1]), []byte(unhx(f[2])))
+			var ch ssh.Channel
+			var rq <-chan *ssh.Request
+			var err error
+			select {
+			case r := <-ocCh:
+				ch, rq, err = r.ch, r.rq, r.err
+			case <-closed:
+				err = io.ErrClosedPipe
+			case <-time.After(crashSSHWait):
+				err = os.ErrDeadlineExceeded
+			}
 			if err != nil {
 				chs = append(chs, &crashSSHChan{closed: true})
 				continue
